@@ -12,14 +12,16 @@ RULE = ('BFS over all histories of evaluate(addr)/set_value(input, v) up to the 
         'ExcelCompiler, per workbook x origin {inmem, xlsx+stored results, yml, json, pkl}, deduplicated by a '
         'canonical state key; every evaluate is compared type-strictly with a from-scratch compile holding the '
         'current inputs. distinct_nontrivial = (canonical state, set_value) transitions that invalidated at '
-        'least one cached formula/range value (each (state, op) pair is executed exactly once).')
+        'least one cached formula/range value (each (state, op) pair is executed once per shard; large jobs are '
+        'sharded by first operation).')
 ASSUMPTIONS = ['from-scratch in-memory compile of the same specification is the oracle (differential, no Excel semantics)',
                'only constant cells are written; set_as_range is outside the alphabet',
                'canonical key lists every field later operations read; on introspection failure histories are not merged']
 
-VALUES_QUICK = [7, 0, False, None, 't', True, 1]
-VALUES_THOROUGH = [7, 0, 1, 2.5, 't', '', True, False, None]
-ORIGINS = ['inmem', 'xlsx', 'yml', 'json', 'pkl']
+VALUES_QUICK = [7, 0, False, None, 't', True, 1, 2.5, 2.500001]
+VALUES_THOROUGH = [7, 0, 1, 2.5, 't', '', True, False, None, 1.000001, 1e-9, 7.00001, 2.500001, 0.0]
+ORIGINS = ['inmem', 'inmem-warm', 'xlsx', 'xlsx-warm', 'yml', 'json', 'pkl']
+VALUES_SMALL = [7, None, False, 0]
 
 
 class P(explore.Problem):
@@ -39,10 +41,10 @@ class P(explore.Problem):
 
     def prepare(self):
         from pycel.excelcompiler import ExcelCompiler
-        if self.origin == 'inmem':
+        if self.origin.startswith('inmem'):
             return
         base = os.path.join(self.tmp, 'wb_' + self.origin)
-        if self.origin == 'xlsx':
+        if self.origin.startswith('xlsx'):
             stored = {a: v[1] for a, v in W.scratch_values(self.spec).items() if v[0] == 'ok'}
             self.path = base + '.xlsx'
             W.write_xlsx(self.spec, self.path, stored)
@@ -58,12 +60,19 @@ class P(explore.Problem):
 
     def new(self):
         from pycel.excelcompiler import ExcelCompiler
-        if self.origin == 'inmem':
+        if self.origin.startswith('inmem'):
             m = W.compile_inmem(self.spec)
-        elif self.origin == 'xlsx':
+        elif self.origin.startswith('xlsx'):
             m = ExcelCompiler(filename=self.path)
         else:
             m = ExcelCompiler.from_file(self.path)
+        if self.origin.endswith('-warm'):
+            # every cell built and evaluated before the explored history starts (not counted in the depth)
+            for a in self.fam['cells']:
+                try:
+                    m.evaluate(a)
+                except Exception:
+                    pass
         return {'m': m, 'assign': {}}
 
     def ref(self, assign):
@@ -137,12 +146,13 @@ def _strip(fam):
 
 
 def work(job):
-    fam, origin, values, depth, max_states = job
+    fam, origin, values, depth, max_states = job[:5]
+    shard = job[5] if len(job) > 5 else None
     acc = Acc()
     tmp = tempfile.mkdtemp(prefix='c01_')
     try:
         p = P(fam, origin, values, tmp)
-        res = explore.bfs(p, depth, acc, max_states=max_states)
+        res = explore.bfs(p, depth, acc, max_states=max_states, shard=shard)
         acc.add('states', res['states'])
         acc.add('transitions', res['transitions'])
         acc.add('evaluations', res['transitions'])
@@ -173,15 +183,26 @@ def run(ctx):
         values = VALUES_THOROUGH
         for f in fams:
             for o in ORIGINS:
-                jobs.append((f, o, values, 4 if o == 'inmem' else 3, 60000))
+                jobs.append((f, o, values, 4 if o.startswith('inmem') else 3, 60000))
         for f in family.enumerated():
             jobs.append((f, 'inmem', VALUES_QUICK, 3, 20000))
     else:
         values = VALUES_QUICK
         for f in fams:
-            for o in ORIGINS:
-                jobs.append((f, o, values, 3 if o == 'inmem' else 2, 6000))
+            jobs.append((f, 'inmem', VALUES_SMALL, 3, 8000))
+            jobs.append((f, 'inmem-warm', VALUES_QUICK, 3, 8000))
+            jobs.append((f, 'xlsx', VALUES_SMALL, 2, 8000))
+            jobs.append((f, 'xlsx-warm', VALUES_SMALL, 2, 8000))
+            for o in ('yml', 'json', 'pkl'):
+                jobs.append((f, o, VALUES_SMALL + [2.5, 2.500001], 3 if o == 'yml' else 2, 8000))
     # rotate (never sample): the seed only changes the order jobs are started in
+    sharded = []
+    for j in jobs:
+        nops = len(j[0]['cells']) + len(j[0]['ranges']) + len(j[0]['unbounded']) + len(j[0]['inputs']) * len(j[2])
+        n = 1 if j[3] < 3 else (8 if nops > 40 else 4 if nops > 28 else 2 if nops > 20 else 1)
+        for k in range(n):
+            sharded.append(j + ((k, n),))
+    jobs = sorted(sharded, key=lambda j: -(len(j[0]['inputs']) * len(j[2])) * j[3])
     k = ctx.seed % max(1, len(jobs))
     jobs = jobs[k:] + jobs[:k]
     ctx.extra['workbooks'] = len({j[0]['name'] for j in jobs})
